@@ -345,12 +345,22 @@ def find_reasonable_step_size(
     integrator, parameters, hamiltonian, mass_matrix, inverse_mass_matrix
 ):
     direction_threshold = math.log(0.8)
+    # every trial trajectory starts from the current state, and the state is left
+    # as it was found: the search must not move the parameters (after a restart
+    # they are the ones of the checkpoint)
+    start = [parameter.tensor.detach().clone() for parameter in parameters]
+
+    def back_to_start():
+        for parameter, tensor in zip(parameters, start):
+            parameter.tensor = tensor.clone()
+
     r = hamiltonian.sample_momentum(mass_matrix)
     ham = hamiltonian(momentum=r, inverse_mass_matrix=inverse_mass_matrix)
 
     r = integrator(hamiltonian.joint, parameters, r, inverse_mass_matrix)
 
     new_ham = hamiltonian(momentum=r, inverse_mass_matrix=inverse_mass_matrix)
+    back_to_start()
 
     delta_hamiltonian = ham - new_ham
     direction = 1 if direction_threshold < delta_hamiltonian else -1
@@ -362,6 +372,7 @@ def find_reasonable_step_size(
         r = integrator(hamiltonian.joint, parameters, r, inverse_mass_matrix)
 
         new_ham = hamiltonian(momentum=r, inverse_mass_matrix=inverse_mass_matrix)
+        back_to_start()
 
         delta_hamiltonian = ham - new_ham
 
